@@ -14,11 +14,15 @@ ENGINE = os.path.join(BUILD, "hgv_engine")
 # ---------------------------------------------------------------------------- program text
 
 class Stmt:
-    def __init__(self, lbl, kind, args):
-        self.lbl, self.kind, self.args = lbl, kind, list(args)
+    def __init__(self, lbl, kind, args, native=False):
+        # `ngate` is the gate node built as a NATIVE node (readiness decided by node.cpp's generic gate):
+        # same semantics, so everything downstream sees kind "gate"; only the program text differs
+        self.native = native or kind == "ngate"
+        self.lbl, self.kind, self.args = lbl, ("gate" if kind == "ngate" else kind), list(args)
 
     def line(self):
-        return "node %d %s %s" % (self.lbl, self.kind, " ".join(str(a) for a in self.args))
+        return "node %d %s %s" % (self.lbl, "ngate" if self.native and self.kind == "gate" else self.kind,
+                                  " ".join(str(a) for a in self.args))
 
     def port_args(self):
         k = self.kind
@@ -843,7 +847,7 @@ def gen_body(rng, p, lbl0, avail, n, kinds, srcs_ok=True):
             a, b = rng.choice(pool), rng.choice(pool)
             pa = "~" if rng.random() < 0.3 else ""
             pb = "~" if rng.random() < 0.3 and not pa else ""
-            out.append(Stmt(lbl, "gate", [pa + a, pb + b, rng.choice(["VV", "VU", "UV", "UU"])])); made.append(str(lbl))
+            out.append(Stmt(lbl, rng.choice(["gate", "ngate"]), [pa + a, pb + b, rng.choice(["VV", "VU", "UV", "UU"])])); made.append(str(lbl))
         lbl += 1
     return out, made, lbl
 
@@ -928,7 +932,7 @@ def gen_nested(rng, both=True, depth=1):
             if s_.kind == "src":
                 p.ticks[int(a2[0]) + off] = list(p.ticks[int(a2[0])])
                 a2[0] = int(a2[0]) + off
-            body.append(Stmt(s_.lbl + off, s_.kind, a2))
+            body.append(Stmt(s_.lbl + off, s_.kind, a2, getattr(s_, "native", False)))
         n2 = sh(sout)
         lbl += 1
         body.append(Stmt(lbl, "sink", [n2])); lbl += 1
